@@ -1478,7 +1478,7 @@ def compute_keypoints(values,
           weights=weights).astype(float)
     else:
       return np.quantile(
-          sorted_values, quantiles, interpolation='nearest').astype(float)
+          sorted_values, quantiles, method='nearest').astype(float)
 
   elif keypoints == 'uniform':
     return np.linspace(sorted_values[0], sorted_values[-1], num_keypoints)
